@@ -594,3 +594,58 @@ def cfg_of(func):
         c = CFG(func)
         _cfg_cache[id(func)] = c
     return c
+
+
+def flag_reachable(cfg, start_edges, env0=None):
+    """Nodes reachable from `start_edges` (list of node idx to start at) when the values of plain
+    bool locals are followed along each path: `flag = true/false` (declaration or assignment with a
+    constant) fixes the value, any other write forgets it, and a later test of the bare flag
+    (under any number of `!`) takes only the edge that agrees with a known value.  This removes
+    the infeasible paths of the `ok = false; break; ... if (ok)` idiom; everything else is
+    over-approximated as in `reachable_from`."""
+    from .rules.common import unnegate, member_path, strip_casts
+    seen = set()
+    out = set()
+    stack = [(s, frozenset((env0 or {}).items())) for s in start_edges]
+    while stack:
+        v, envf = stack.pop()
+        if (v, envf) in seen:
+            continue
+        seen.add((v, envf))
+        out.add(v)
+        env = dict(envf)
+        cn = cfg.nodes[v]
+        a = cn.ast
+        if cn.kind != 'cond' and a is not None:
+            for n in a.walk():
+                if n.kind == 'VarDecl' and n.name and (n.type or '').replace('const ', '').strip() == 'bool':
+                    val = const_eval(n.kids[-1]) if n.kids else None
+                    if isinstance(val, bool):
+                        env[n.name] = val
+                    else:
+                        env.pop(n.name, None)
+                elif n.kind == 'BinaryOperator' and n.op == '=' and len(n.kids) == 2:
+                    p = member_path(strip_casts(n.kids[0]))
+                    if p and '.' not in p:
+                        val = const_eval(n.kids[1])
+                        if isinstance(val, bool):
+                            env[p] = val
+                        else:
+                            env.pop(p, None)
+                elif n.kind == 'CompoundAssignOperator' and n.kids:
+                    p = member_path(strip_casts(n.kids[0]))
+                    if p:
+                        env.pop(p, None)
+        for (w, lab) in cfg.succ[v]:
+            env2 = env
+            if cn.kind == 'cond' and a is not None and lab in (True, False):
+                base, pos = unnegate(a)
+                p = member_path(base) if base is not None and base.kind == 'DeclRefExpr' else None
+                if p is not None:
+                    val = lab if pos else (not lab)
+                    if p in env and env[p] != val:
+                        continue
+                    env2 = dict(env)
+                    env2[p] = val
+            stack.append((w, frozenset(env2.items())))
+    return out
